@@ -1,0 +1,110 @@
+//go:build verif
+
+package op
+
+// Comment-only file: contracts read by /verif's govc (see pkg/oidc/zz_verif_contracts.go).
+
+// ---- error responses (C05, C09, C10) ----
+
+//@ func op.RequestError
+//@   requires once: !Resp_written[w]
+//@   requires err != nil
+//@   modifies Resp_written[w], Resp_status[w], Resp_body[w], os(w)
+//@   ensures written: Resp_written[w]
+//@   ensures status: Resp_status[w] == 400 || Resp_status[w] == 401
+//@   ensures error-document: typeis(Resp_body[w], "*oidc.Error") && as(Resp_body[w], "*oidc.Error") != nil
+
+// ---- C07: refresh token grant ----
+
+// grantRegistered is written from the statement: the grant type is in the client's registration.
+//@ spec func grantRegistered(c Client, g oidc.GrantType) bool = contains(c.GrantTypes(), g)
+
+// scopesNarrowed(req, requested) is *defined* as "ValidateRefreshTokenScopes succeeded for these
+// arguments"; what that means is proved by its other clauses.
+//@ spec func scopesNarrowed(req RefreshTokenRequest, requested []string) bool
+
+//@ loop op.ValidateGrantType#1
+//@   invariant none-yet: forall k int :: 0 <= k && k <= rangeindex ==> client.GrantTypes()[k] != grantType
+//@ func op.ValidateGrantType
+//@   pure
+//@   ensures iff: result <==> client != nil && contains(client.GrantTypes(), grantType)
+
+//@ loop op.ValidateRefreshTokenScopes#1
+//@   invariant seen: forall k int :: 0 <= k && k <= rangeindex ==> contains(authRequest.GetScopes(), requestedScopes[k])
+//@   invariant unchanged: authRequest.GetScopes() == old(authRequest.GetScopes())
+
+//@ func op.ValidateRefreshTokenScopes
+//@   requires valid(authRequest)
+//@   modifies os(authRequest)
+//@   defines marker: err == nil ==> scopesNarrowed(authRequest, requestedScopes)
+//@   ensures empty: len(requestedScopes) == 0 ==> err == nil && authRequest.GetScopes() == old(authRequest.GetScopes())
+//@   ensures subset: err == nil ==> forall i int :: 0 <= i && i < len(requestedScopes) ==> contains(old(authRequest.GetScopes()), requestedScopes[i])
+//@   ensures narrowed: err == nil && len(requestedScopes) > 0 ==> authRequest.GetScopes() == requestedScopes
+//@   ensures reject-keeps: err != nil ==> authRequest.GetScopes() == old(authRequest.GetScopes())
+//@   ensures reject-only-widening: err != nil ==> exists i int :: 0 <= i && i < len(requestedScopes) && !contains(old(authRequest.GetScopes()), requestedScopes[i])
+//@   ensures kind: err != nil ==> typeis(err, "*oidc.Error") && as(err, "*oidc.Error").ErrorType == oidc.InvalidScope
+//@   ensures identity-kept: authRequest.GetClientID() == old(authRequest.GetClientID()) && authRequest.GetSubject() == old(authRequest.GetSubject())
+//@        && authRequest.GetAudience() == old(authRequest.GetAudience()) && authRequest.GetAuthTime() == old(authRequest.GetAuthTime())
+
+//@ func op.ValidateRefreshTokenRequest
+//@   requires valid(tokenReq) && valid(exchanger)
+//@   ensures fail-closed: err != nil ==> result0 == nil && result1 == nil
+//@   ensures valid: err == nil ==> valid(result0) && valid(result1)
+//@   ensures client-binding: err == nil ==> result1.GetID() == result0.GetClientID()
+//@   ensures grant: err == nil ==> grantRegistered(result1, oidc.GrantTypeRefreshToken)
+//@   ensures scopes: err == nil ==> scopesNarrowed(result0, tokenReq.Scopes)
+//@   ensures authenticated: err == nil ==> authenticated(result1.GetID()) || result1.AuthMethod() == oidc.AuthMethodNone
+//@   ensures token-present: err == nil ==> tokenReq.RefreshToken != ""
+
+// ---- client authentication building blocks (C05, C14) ----
+
+// A verified private_key_jwt assertion authenticates the client named as its issuer
+// (definitional; what verification checks is proved on VerifyJWTAssertion, C14).
+//@ func op.AuthorizePrivateJWTKey
+//@   requires valid(exchanger)
+//@   ensures fail-closed: err != nil ==> result0 == nil
+//@   ensures valid: err == nil ==> valid(result0)
+//@   ensures method: err == nil ==> result0.AuthMethod() == oidc.AuthMethodPrivateKeyJWT
+//@   defines authenticated: err == nil ==> authenticated(result0.GetID())
+
+// tokensIssued(resp, request, client, code, refreshToken) is *defined* as "CreateTokenResponse
+// succeeded for these arguments and returned resp".
+//@ spec func tokensIssued(resp *oidc.AccessTokenResponse, request IDTokenRequest, client Client, code string, refreshToken string) bool
+
+//@ func op.CreateTokenResponse
+//@   requires valid(request) && valid(client) && valid(creator)
+//@   defines issued: err == nil ==> tokensIssued(result0, request, client, code, refreshToken)
+//@   ensures fail-closed: err != nil ==> result0 == nil
+//@   ensures valid: err == nil ==> result0 != nil
+//@   ensures rotation: err == nil && createAccessToken && implements(request, "RefreshTokenRequest")
+//@        && !implements(request, "AuthRequest") && !implements(request, "TokenExchangeRequest")
+//@        ==> rotated(refreshToken, result0.RefreshToken)
+//@   ensures scope: err == nil ==> result0.Scope == request.GetScopes()
+
+//@ func op.ParseRefreshTokenRequest
+//@   requires valid(r) && valid(decoder)
+//@   ensures ok: err == nil ==> result0 != nil
+//@   ensures fail-closed: err != nil ==> result0 == nil
+
+// Handler: exactly one response; a 200 answer carries tokens issued for the request that
+// ValidateRefreshTokenRequest accepted, with the presented refresh token handed on for rotation.
+//@ func op.RefreshTokenExchange
+//@   requires !Resp_written[w] && valid(r) && valid(exchanger) && valid(w)
+//@   ensures responded: Resp_written[w]
+//@   ensures success: Resp_status[w] == 200 ==> callres("op.ValidateRefreshTokenRequest", 2) == nil
+//@        && tokensIssued(as(Resp_body[w], "*oidc.AccessTokenResponse"), callres("op.ValidateRefreshTokenRequest", 0),
+//@                        callres("op.ValidateRefreshTokenRequest", 1), "", callres("op.ParseRefreshTokenRequest", 0).RefreshToken)
+
+// ---- token construction (C06; here only what C04/C07 need) ----
+
+//@ func op.CreateAccessToken
+//@   requires valid(tokenRequest) && valid(creator)
+//@   ensures rotation: err == nil && implements(tokenRequest, "RefreshTokenRequest")
+//@        && !implements(tokenRequest, "AuthRequest") && !implements(tokenRequest, "TokenExchangeRequest")
+//@        ==> rotated(refreshToken, newRefreshToken)
+
+//@ func op.CreateIDToken
+//@   requires valid(request) && valid(storage) && valid(client)
+
+//@ func op.CreateJWT
+//@   requires valid(tokenRequest) && valid(storage) && valid(client)
